@@ -159,6 +159,28 @@ def gen_mc(wd, name, base, consts, spec, invariants=(), props=(), view="view", c
         fh.write("\n".join(cfg) + "\n")
 
 
+def run_apalache(wd, module, obligations, timeout=600):
+    """Discharge proof obligations with Apalache (bounded symbolic checker) in the scratch copy wd.
+    obligations: list of (label, extra command-line arguments).  Returns a stage record; a failed or undecided
+    obligation is a problem of the specification, not of the code: Inconclusive."""
+    import time as _t
+    t0 = _t.time()
+    done = []
+    for label, args in obligations:
+        cmd = ["apalache-mc", "check", "--out-dir=" + os.path.join(wd, "_apalache_" + module)] + list(args) + [module + ".tla"]
+        try:
+            p = subprocess.run(cmd, cwd=wd, capture_output=True, text=True, timeout=timeout)
+        except subprocess.TimeoutExpired:
+            raise Inconclusive("apalache: %s / %s timed out" % (module, label))
+        if p.returncode != 0 or "EXITCODE: OK" not in p.stdout:
+            sys.stderr.write(p.stdout[-1500:] + p.stderr[-500:])
+            raise Inconclusive("apalache: obligation %s of %s not discharged (rc=%d)" % (label, module, p.returncode))
+        done.append(label)
+    shutil.rmtree(os.path.join(wd, "_apalache_" + module), ignore_errors=True)
+    log("[apalache] %s: %d obligations discharged in %.1fs" % (module, len(done), _t.time() - t0))
+    return {"name": module + ":apalache", "obligations": done, "wall_s": round(_t.time() - t0, 1)}
+
+
 def run_tlc(wd, name, out, workers=None, timeout=1800, heap="8g", simulate=None, seed=None, depth=None,
             extra=()):
     """Run TLC in wd; stdout goes to `out`.  Returns stats dict."""
